@@ -50,7 +50,7 @@ def _unit_worker(job):
 
         def on_cut(ctx):
             # the same guard at the end of loop-body / prefix paths (their obligations are loop-step clauses assumed from invariants)
-            if len(cut_canaries) < 4:
+            if len(cut_canaries) < 10:
                 from pyvc.interp import Obligation
                 cut_canaries.append(('cut', Obligation('canary.false', z3.BoolVal(False), ctx.hyps + ctx.pc, kind='canary', path=list(ctx.trace))))
         eng.on_cut = on_cut
